@@ -149,7 +149,7 @@ Theorem parse_xpub_key_sound : forall o x depth toks k,
 Proof.
   intros o x depth toks k H. unfold parse_xpub_key in H.
   destruct (parse_xkey_deriv toks) as [[ps w]|e] eqn:E; [|discriminate].
-  apply parse_xkey_deriv_sound in E. destruct (existsb _ ps); [discriminate|].
+  apply parse_xkey_deriv_sound in E. cbv zeta in H. destruct (existsb _ ps || _); [discriminate|].
   destruct E as [p w|pre a0 a1 rest post w Hnd].
   - replace k with (KXpub o x p w); [constructor|].
     destruct p as [|s p]; cbn [plain_paths hd] in H; inversion H; reflexivity.
@@ -213,12 +213,13 @@ Theorem parse_xpub_key_complete : forall o x depth toks k,
   parse_xpub_key o x depth toks = POk k.
 Proof.
   intros o x depth toks k H Hd. unfold parse_xpub_key. destruct H as [p w|pre a0 a1 rest post w Hnd]; cbn [key_wild key_paths] in Hd.
-  - rewrite (parse_xkey_deriv_complete _ (plain_paths p) w (ShPlain p w)).
-    replace (existsb _ (plain_paths p)) with false.
-    + destruct p as [|s p]; reflexivity.
-    + symmetry. destruct p as [|s p]; [reflexivity|]. cbn [plain_paths existsb]. rewrite orb_false_r.
-      apply N.ltb_ge. apply Hd. left. reflexivity.
-  - rewrite (parse_xkey_deriv_complete _ _ w (ShTuple pre a0 a1 rest post w Hnd)).
+  - rewrite (parse_xkey_deriv_complete _ (plain_paths p) w (ShPlain p w)). cbv zeta.
+    assert (Hp : N.ltb 255 (depth + N.of_nat (length p) + wildcard_steps w) = false)
+      by (apply N.ltb_ge; apply Hd; left; reflexivity).
+    destruct p as [|s p]; cbn [plain_paths existsb orb hd].
+    + cbn [length] in Hp. rewrite Hp. reflexivity.
+    + rewrite Hp. reflexivity.
+  - rewrite (parse_xkey_deriv_complete _ _ w (ShTuple pre a0 a1 rest post w Hnd)). cbv zeta.
     replace (existsb _ _) with false; [reflexivity|]. symmetry.
     apply not_true_is_false. intros E. apply existsb_exists in E. destruct E as [p [Hp Ep]].
     apply N.ltb_lt in Ep. specialize (Hd p Hp). lia.
